@@ -147,7 +147,7 @@ def run_property(pid, tier, seed, repo='/repo', only_deductive=False, timeout=No
     ti = 0 if tier == 'quick' else 1
     # generous wall-clock budgets: verdicts must not flip when the machine is busy (a budget is only exhausted by obligations
     # that do not hold or lost their proof hint)
-    timeout = timeout or (60 if tier == 'quick' else 180)
+    timeout = timeout or (120 if tier == 'quick' else 300)
     interp.clear_modules()
     ctx = verify.new_ctx(repo)
     ctx.trace_mode = bool(P.get('trace_mode'))
@@ -218,6 +218,9 @@ def run_property(pid, tier, seed, repo='/repo', only_deductive=False, timeout=No
             engine_errors.append('no obligations generated for %s' % f['key'])
     summ = verify.discharge(ctx, timeout=timeout)
     bad = [o for o in ctx.obligations if o.status != 'discharged']
+    if os.environ.get('VF_SLOW'):
+        for o in sorted(ctx.obligations, key=lambda o: -o.seconds)[:12]:
+            print('slow: %.1fs %s %s' % (o.seconds, o.backend, o.name), file=sys.stderr)
     # run-time tier (bounded stand-in + differential check of the contract reading)
     rt = []
     known = load_known(pid)
